@@ -231,8 +231,21 @@ def check_output(inp, opts, out):
                 exp += p
         # alternates: a vehicle's alternates count as one unit (penalty of the unit = sum over its members) when none is used
         got = terms["unplanned_penalty"].get("base", 0)
-        if not inp.get("alternate_stops") and abs(got - exp) > 1e-6:
-            F["C05"].append("unplanned_penalty base %s, penalties of the unplanned stops %s" % (got, exp))
+        if not inp.get("alternate_stops"):
+            if abs(got - exp) > 1e-6:
+                F["C05"].append("unplanned_penalty base %s, penalties of the unplanned stops %s" % (got, exp))
+        else:
+            # the alternates of a vehicle are one plan-one-of unit: it costs the average penalty of its members while
+            # none of them is on the vehicle's route, nothing once one is used
+            exp_alt = 0.0
+            for vid, (ids, vo) in routes.items():
+                va = veh_in[vid].get("alternate_stops") or []
+                if va and not any(a in ids for a in va):
+                    exp_alt += sum(alts[a].get("unplanned_penalty", dflt if dflt is not None else 1000000) for a in va if a in alts) / len(va)
+            if abs(got - (exp + exp_alt)) > 1e-6:
+                kind = "[alternates overcharged]" if got > exp + exp_alt else "[alternates]"
+                F["C05"].append("%s unplanned_penalty base %s, expected %s (unplanned stops %s + unused alternates %s)"
+                                % (kind, got, exp + exp_alt, exp, exp_alt))
     if "vehicle_activation_penalty" in terms:
         exp = sum((veh_in[vid].get("activation_penalty") or 0) for vid, (ids, vo) in routes.items()
                   if any(not (s.endswith("-start") or s.endswith("-end")) for s in ids))
